@@ -151,6 +151,9 @@ def _parse_into(unit, path, seen, assumed):
         elif tag == '@prelude':
             for f in rest_nc.split():
                 unit.entries.append(('prelude', f))
+        elif tag == '@prelude-if':
+            feat, f = rest_nc.split()
+            unit.entries.append(('prelude-if', feat, f))
         elif tag == '@macros':
             file, names = [x.strip() for x in rest_nc.split('::')]
             unit.macros.append((file, names.split()))
@@ -531,6 +534,11 @@ REWRITE_RULES = {
         (re.compile(r'([A-Za-z_][A-Za-z0-9_.]*?)\s*\.extend\(core::iter::repeat\(([^()]*)\)\.take\(([^;]*?)\)\)(?=\s*[;}])', re.S),
          r'verif_vec_extend_repeat(&mut \1, \2, \3)'),
     ],
+    'R2r': [
+        # same as R2 where the receiver already is a `&mut Vec<_>` binding
+        (re.compile(r'([A-Za-z_][A-Za-z0-9_.]*?)\s*\.extend\(core::iter::repeat\(([^()]*)\)\.take\(([^;]*?)\)\)(?=\s*[;}])', re.S),
+         r'verif_vec_extend_repeat(\1, \2, \3)'),
+    ],
     'R3': [
         (re.compile(r'String::from_utf8\(([A-Za-z_][A-Za-z0-9_]*)\)\.map_err\(\|e\| ErrorKind::FromUtf8Error\(e\)\.into\(\)\)'),
          r'verif_string_from_utf8(\1)'),
@@ -608,6 +616,9 @@ class Extractor:
                     and sig[i - 1].text in ('{', ',', ']') :
                 # private field -> pub (single-file crate, specs need access)  R7
                 p.insert(sig[i].start, 'pub ')
+            # R20: crate-internal module path in a field type -> flat name (single-file crate)
+            if [t.text for t in sig[i:i + 6]] == ['crate', ':', ':', 'rw', ':', ':']:
+                p.rewrite(sig[i].start, sig[i + 5].end, '', 'R20')
         text, log, orig = p.render()
         self.log += log
         self.record_span(src, it.attr_start, it.end, what)
@@ -846,6 +857,8 @@ class Extractor:
                 raise AnchorLost('%s: rewrite rule R11 listed but did not fire' % what)
         # regex rewrite rules on body
         for rule in sorted(fs.rewrites):
+            optional = rule.endswith('?')
+            rule = rule.rstrip('?')
             m16 = re.match(r'R16\((.+)\)$', rule)
             if m16:
                 # `&mut V[range]` on a Vec V  ->  `&mut V.as_mut_slice()[range]` (std defines the former as the latter;
@@ -867,7 +880,7 @@ class Extractor:
                             continue
                         p.rewrite(s_, e_, m.expand(rep), rule)
                         fired = True
-                if not fired:
+                if not fired and not optional:
                     raise AnchorLost('%s: rewrite rule %s listed but did not fire' % (what, rule))
         if 'R10a' in fs.rewrites:
             # X.as_mut().filter(|_| C).map(|P| { BODY }).transpose()   (closure captures a &mut: unsupported by Verus)
@@ -1069,6 +1082,11 @@ def generate(spec_path, repo, features, known_off=False, canary=None):
             path = os.path.join(VERIF, 'contracts', e[1])
             body.append('// ---- prelude %s ----\n' % e[1] + open(path).read() + '\n')
             preludes.append(e[1])
+        elif e[0] == 'prelude-if':
+            if e[1] in features:
+                path = os.path.join(VERIF, 'contracts', e[2])
+                body.append('// ---- prelude %s (feature %s) ----\n' % (e[2], e[1]) + expand_macros(open(path).read(), DEFINES) + '\n')
+                preludes.append(e[2])
         elif e[0] == 'raw':
             body.append(expand_macros(e[1], DEFINES) + '\n')
         elif e[0] == 'const':
